@@ -88,6 +88,7 @@ func LongBody(cfg LongCfg, st *LongStats) func(c *mc.Chooser) *mc.Failure {
 		var ref []int // sorted keys
 		tag := map[int]int{}
 		P := 0
+		allowedFor, allowed := -1, 0
 		has := func(k int) (int, bool) {
 			i := sort.SearchInts(ref, k)
 			return i, i < len(ref) && ref[i] == k
@@ -198,19 +199,22 @@ func LongBody(cfg LongCfg, st *LongStats) func(c *mc.Chooser) *mc.Failure {
 				}
 			}
 			if cfg.Depth && cfg.Beta < 1000 && len(ref) > 0 {
-				_, d := Shape(t)
-				if !DepthAllowed(d, P, cfg.Beta) {
-					return mc.Failf(si, "after %v: depth %d exceeds log_{2000/%d}(P=%d)+1 = max %d (Len=%d)", o, d, 1000+cfg.Beta, P, MaxAllowedDepth(P, cfg.Beta), len(ref))
+				d := MaxDepth(t)
+				if P != allowedFor {
+					allowedFor, allowed = P, MaxAllowedDepth(P, cfg.Beta)
+				}
+				if d > allowed && !DepthAllowed(d, P, cfg.Beta) {
+					return mc.Failf(si, "after %v: depth %d exceeds log_{2000/%d}(P=%d)+1 = max %d (Len=%d)", o, d, 1000+cfg.Beta, P, allowed, len(ref))
 				}
 				if st != nil {
-					if sl := int64(MaxAllowedDepth(P, cfg.Beta) - d); sl < st.MinSlack {
+					if sl := int64(allowed - d); sl < st.MinSlack {
 						st.MinSlack = sl
 					}
 				}
 				*n = 0
 				t.Get(Elem{K: o.A})
-				if int(*n) > MaxAllowedDepth(P, cfg.Beta)+1 {
-					return mc.Failf(si, "after %v: Get made %d comparisons with allowed depth %d", o, *n, MaxAllowedDepth(P, cfg.Beta))
+				if int(*n) > allowed+1 {
+					return mc.Failf(si, "after %v: Get made %d comparisons with allowed depth %d", o, *n, allowed)
 				}
 			}
 		}
